@@ -69,14 +69,25 @@ var Uninterpreted = map[string]bool{"Exported": true}
 // Expand expands the template for one model. It returns one skeleton per
 // combination of unknown conditions met on the way (normally exactly one).
 func Expand(src *Source, mach func() *interp.Machine, m *Model, visited map[parse.Node]bool) ([]*Skeleton, error) {
+	return ExpandData(src, mach, m, nil, visited)
+}
+
+// ExpandData expands the template on the given abstract data (nil: the data
+// is built from the model).
+func ExpandData(src *Source, mach func() *interp.Machine, m *Model, given *interp.Struct, visited map[parse.Node]bool) ([]*Skeleton, error) {
 	var out []*Skeleton
 	choices := interp.NewChoices(64)
 	for {
 		ma := mach()
 		ma.Choices = choices
-		data, err := BuildData(src.Prog, m)
-		if err != nil {
-			return nil, &Undecided{Msg: err.Error()}
+		data := given
+		if data == nil {
+			var err error
+			if data, err = BuildData(src.Prog, m); err != nil {
+				return nil, &Undecided{Msg: err.Error()}
+			}
+		} else {
+			data = data.Copy()
 		}
 		ex := &expander{src: src, m: ma, visited: visited}
 		ex.vars = []tvar{{"$", data}}
